@@ -326,7 +326,7 @@ func main() {
 	}
 
 	// ---- oracle 1: generated valid descriptions -------------------------------------------------
-	nDesc := run.Pick(200_000, 4_000_000)
+	nDesc := run.Pick(200_000, 8_000_000)
 	const chunk = 500
 	run.Parallel((nDesc+chunk-1)/chunk, func(wk, j int) {
 		for i := j * chunk; i < (j+1)*chunk && i < nDesc; i++ {
@@ -355,7 +355,7 @@ func main() {
 			short = append(short, d)
 		}
 	}
-	nGenTrunc := run.Pick(40, 1000)
+	nGenTrunc := run.Pick(40, 2000)
 	for k, tries := 0, 0; k < nGenTrunc && tries < 20*nGenTrunc; tries++ {
 		d, _ := genSession(run.Rand("trunc", tries))
 		if t, err, site, _ := safeMarshal(d); err == nil && site == "" && len(t) <= 700 {
@@ -371,9 +371,9 @@ func main() {
 	}, onPanic("truncations"))
 
 	// (c2) mutations, (c3) synthesized rtpmap/fmtp combinations, (d) noise
-	nMut := run.Pick(120_000, 2_400_000)
-	nSynth := run.Pick(100_000, 2_000_000)
-	nNoise := run.Pick(20_000, 200_000)
+	nMut := run.Pick(120_000, 5_000_000)
+	nSynth := run.Pick(100_000, 4_000_000)
+	nNoise := run.Pick(20_000, 400_000)
 	const shards = 256
 	run.Parallel(shards, func(wk, j int) {
 		c := local(wk)
